@@ -203,7 +203,13 @@ def gen_program(rng, name, n_ifaces=None, customs=None, error=None, profile="gen
 
 
 INERT_VARIANT_ATTRS = ['schemars(rename = "Zed{n}")', 'schemars(title = "rename = other")', 'doc = "serde(rename = \\"never\\")"',
-                       'cfg_attr(any(), serde(rename = "never{n}"))', 'schemars(description = "alias = \\"x\\"")']
+                       'cfg_attr(any(), serde(rename = "never{n}"))', 'schemars(description = "alias = \\"x\\"")',
+                       # re-cases the fields of the variant by the rule they already follow; the variant's own name is not touched
+                       'serde(rename_all = "snake_case")']
+
+
+# doc comments and attributes that are not lists, written in front of `#[sv::msg(..)]`
+FOREIGN_ABOVE = ["/// Documented handler.", "inline", "doc = \" docs above\"", "allow(unused_variables)", "/// Second line."]
 
 
 def decorate(rng, prog):
@@ -222,6 +228,8 @@ def decorate(rng, prog):
                 h.setdefault("sv_attrs", []).append(rng.choice(INERT_VARIANT_ATTRS).replace("{n}", str(n)))
                 if rng.random() < 0.5:
                     h["sv_attrs_above"] = len(h["sv_attrs"])
+            if rng.random() < 0.12:
+                h["foreign_attrs_above"] = rng.sample(FOREIGN_ABOVE, rng.choice([1, 2]))
             if h["kind"] == "query" and rng.random() < 0.12:
                 # a second `returns(..)` forwarded to the variant: the derive reads the first one, the one sylvia wrote
                 h.setdefault("sv_attrs", []).append("returns(svmon::Pt)")
@@ -417,6 +425,8 @@ def gen_reply_table(rng, prog, n_names=None, force_modes=None, stage_merge=False
             m["handlers_split"] = rng.randrange(1, len(served))
         if rng.random() < 0.3:
             m["reply_on_first"] = True
+        if rng.random() < 0.15:
+            m["foreign_attrs_above"] = rng.sample(FOREIGN_ABOVE, rng.choice([1, 2]))
         if outcome == "success":
             m["data"] = modes.pop(0) if modes else rng.choice(DATA_MODES)
             if rng.random() < 0.3:
@@ -452,7 +462,10 @@ def gen_reply_table(rng, prog, n_names=None, force_modes=None, stage_merge=False
             if stage_shared and names[0] in want and names[1] in want:
                 # "error": one error method below two success methods; "success": one success method above two error methods
                 shared_letter = "e" if stage_shared != "success" else "s"
-                if letter != shared_letter:
+                if stage_shared == "both":
+                    # one success and one error method, each serving both names
+                    new_method(outcome, [names[0], names[1]], sig)
+                elif letter != shared_letter:
                     new_method(outcome, [names[0]], sig)
                     new_method(outcome, [names[1]], sig)
                 else:
@@ -526,16 +539,24 @@ def gen_ep_config_program(rng, name, overrides, migrate, reply, replies_feature)
         c = p["parts"][0]
         if migrate:
             c["handlers"].append(_new_handler(rng, p, c, "migrate", "migrate_v9", False))
+            if sum(ord(ch) for ch in name) % 2 == 0:
+                c["handlers"][-1]["foreign_attrs_above"] = ["/// The migration.", "inline"]
         else:
             c["handlers"] = [h for h in c["handlers"] if h["kind"] != "migrate"]
     if reply == "table":
-        gen_reply_table(rng, p)
+        tb = gen_reply_table(rng, p)
+        if sum(ord(ch) for ch in name) % 2 == 0:
+            # every reply method names its handlers explicitly (no method is called like the handler it serves)
+            for m in tb["methods"]:
+                m["handlers"] = list(m["serves"])
     elif reply == "legacy":
         # an associated const in front of the methods: positions among the impl's *items* are not positions among its methods
         p["impl_between"] = list(p.get("impl_between", [])) + [(0, "pub const REPLY_SLOT: u64 = 1;")]
         rn = rng.choice(["reply", "on_reply", "handle_reply"])
         p["parts"][0]["handlers"].append({"kind": "reply", "name": rn, "safe": True, "hid": f"c.reply.{rn}", "part": "c",
                                           "legacy": True, "args": [], "ret_err": rng.choice(["own", "std"])})
+        if sum(ord(ch) for ch in name) % 2 == 1:
+            p["parts"][0]["handlers"][-1]["foreign_attrs_above"] = ["/// The reply handler.", "inline"]
     if reply in ("table", "legacy") and rng.random() < 0.6:
         # reply methods anywhere among the other handlers, e.g. before the migrate handler
         rng.shuffle(p["parts"][0]["handlers"])
